@@ -49,3 +49,9 @@ claim("C09",
       "Decides the wrapper discipline that lets the single Go channel's guarantees (exactly once, per-sender FIFO) carry over: one send per successful Send and none on failure, one receive per Receive, the chan field touched only by Channel's methods, closed tested before send/close with a failure result on the closed arm, two-result receive; and reports the flag's missing synchronisation and the check-then-act send/close as findings. Delivery under all interleavings is the Go runtime's guarantee and is not re-proved; deadlock freedom is not decided.",
       "Go channel semantics are trusted; known findings C09-SYNC/C09-SAFE are genuine races witnessed with go test -race",
       "DESIGN.md §2 C09")
+
+claim("C17",
+      "table extraction from the switches over reflect kinds; conversion-to-target check of every produced reflect.Value; guard-dominance check of narrowing conversions",
+      "Decides that every reflect.Value built for a registered Go parameter is converted to the parameter's type (so no signature of the supported kinds or of named types makes reflect.Call panic), that unsupported parameter kinds end in a catchable error, that numeric result kinds stay numeric, and that integer narrowing in the generic argument converters is range-checked with an error arm. The converted values themselves, float representability and struct/method registration semantics are not decided.",
+      "reflect.Value.Call assignability rule; Go conversion semantics; float-source conversions are treated as ordinary coercion and not judged",
+      "DESIGN.md §2 C17")
